@@ -197,6 +197,8 @@ def run(scn, loop):
     else:
         st.request = pjrpc.Request('m', [1], id=None if cfg['req'] == 'notification' else 1)
         call = lambda: client.send(st.request, **kwargs)          # noqa: E731
+    import zlib
+    in_handler = zlib.crc32(json.dumps({k: v for k, v in cfg.items() if k != 'kind'}, sort_keys=True).encode()) % 2 == 1   # by content (the same for both halves)
     for rnd in range(cfg.get('rounds', 1)):
         if rnd:
             # the next request on the SAME client, strategy and tracer objects
@@ -206,7 +208,14 @@ def run(scn, loop):
             st.raised = None
             st.ctx_ids = {}
         try:
-            resp = loop.run_until_complete(call()) if is_async else call()
+            if in_handler:
+                # the caller makes the request while it is handling an exception of its own (a fallback, a failure report)
+                try:
+                    raise LookupError('the caller is handling this')
+                except LookupError:
+                    resp = loop.run_until_complete(call()) if is_async else call()
+            else:
+                resp = loop.run_until_complete(call()) if is_async else call()
             st.ev.append({'ev': 'Return', 'o': classify_response(resp)})
         except BaseException as e:  # noqa
             st.ev.append({'ev': 'Raise', 'o': classify_exc(e), 'same': st.raised is None or e is st.raised})
